@@ -219,7 +219,8 @@ class Hist:
             else:
                 # initialized_size: beyond the current size the interval grows (an implicit size assignment)
                 o = self.w.obj[bi]
-                v = rng.choice([0, 1, o.size, o.size + 1, o.size + 8, 40])
+                # (an interval adopted from a loaded file may declare a size near 2^64: no attempt to store that many bytes)
+                v = rng.choice([0, 1, o.size, o.size + 1, o.size + 8, 40] if o.size < (1 << 16) else [0, 1, 40, 64])
                 self.emit([29, bi, v], model_it=[15, bi, max(o.size, v)])
         elif r < 0.65 and (self.by_kind["CodeBlock"] or self.by_kind["DataBlock"]):
             b = rng.choice(self.by_kind["CodeBlock"] + self.by_kind["DataBlock"])
@@ -352,6 +353,76 @@ class Hist:
                 ps = self.by_kind[PARENT_KIND[kind]]
                 if ps and rng.random() < p:
                     self.emit([2, c, [rng.choice(ps)]])
+
+
+def adopt_loaded(h, ir):
+    """Continue a history FROM A LOADED IR: the objects the loader built are adopted under fresh node numbers, and the model is
+    brought to the corresponding state by guarded operations only (new nodes, then attach through the parent attributes, module
+    list appends, one whole-map assignment per interval) -- so the model state is `reachable_k` by construction and every World
+    theorem speaks about it.  Nothing is executed on the implementation here: its state is whatever the loader left (UUID table,
+    lazy indexes, symbol indexes included), and the observations that follow compare the two."""
+    g, w = h.g, h.w
+    name_num = {w.name(k): k for k in range(6)}
+
+    def num():
+        n = h.next_num
+        h.next_num += 1
+        return n
+
+    def model_only(it):
+        h.items.append(it)
+        h.replies.append([0])
+
+    def new(kind, o, addr=None, size=0, off=0, nm=0, pay=None):
+        n = num()
+        w.adopt(n, kind, o)
+        h.by_kind[kind].append(n)
+        h.uuids.append(o.uuid.int)
+        model_only([1, n, K[kind], o.uuid.int, opt(addr), size, off, nm, pay or []])
+        return n
+    irn = new("IR", ir)
+    attach, later_syms, symx = [], [], []
+    for m in ir.modules:
+        mn = new("Module", m)
+        attach.append(("mod", irn, mn))
+        for px in m.proxies:
+            attach.append(("par", mn, new("ProxyBlock", px)))
+        for sec in m.sections:
+            sn = new("Section", sec)
+            attach.append(("par", mn, sn))
+            for bi in sec.byte_intervals:
+                bn = new("ByteInterval", bi, addr=bi.address, size=bi.size)
+                attach.append(("par", sn, bn))
+                for b in bi.blocks:
+                    kind = "CodeBlock" if isinstance(b, g.CodeBlock) else "DataBlock"
+                    attach.append(("par", bn, new(kind, b, size=b.size, off=b.offset)))
+                if len(bi.symbolic_expressions):
+                    symx.append((bn, bi))
+        for y in m.symbols:
+            later_syms.append((mn, y))
+    for mn, y in later_syms:                       # symbols last: a referent must exist before the symbol naming it
+        if y.name not in name_num:
+            k = 100 + len(name_num)
+            name_num[y.name] = k
+            w.names[k] = y.name
+        if y.referent is not None:
+            pay = [1, w.num.get(id(y.referent), -7)]
+        elif y.value is not None:
+            pay = [0, y.value]
+        else:
+            pay = []
+        attach.append(("par", mn, new("Symbol", y, nm=name_num[y.name], pay=pay)))
+    for kind, p, c in attach:
+        model_only([4, p, c] if kind == "mod" else [2, c, [p]])
+    for bn, bi in symx:
+        kvs = []
+        for k, e in bi.symbolic_expressions.items():
+            ek = 1000 + len(w.exprs)
+            w.exprs[ek] = e
+            w.expr_num[id(e)] = ek
+            kvs.append([k, ek])
+        model_only([26, bn, kvs])
+    return irn
 
 
 def _bound(o, dflt, n):
